@@ -184,6 +184,9 @@ inductive Label
   | pauseW
   | resumeW
   | tick
+  /-- virtual time passes (the peer stays silent for `d` ms) — never beyond the next timer deadline,
+  and only while nothing is ready -/
+  | adv (d : Nat)
 deriving DecidableEq, Repr
 
 /-- number of application task slots (heartbeat ping tasks are appended after them) -/
@@ -843,6 +846,11 @@ def step (s : St) : Label → St
       match s.timers with
       | [] => s
       | (w, _) :: _ => fireDue { s with now := max s.now w }
+  | .adv d =>
+    if !s.ready.isEmpty then s
+    else match s.timers with
+      | [] => { s with now := s.now + d }
+      | (w, _) :: _ => { s with now := max s.now (min (s.now + d) w) }
 
 def run (s : St) (ls : List Label) : St := ls.foldl step s
 
